@@ -174,8 +174,19 @@ def rule_delegation(ctx):
                         ctx.violated('R1', fi, e.node, 'every variable is stacked along the same checked new axis with the same keys', node=e.node)
                         continue
                 else:
-                    if T.kw(c, 'axis') != P_('axis'):
-                        ctx.violated('R1', fi, e.node, 'every variable is concatenated along the requested axis', node=e.node)
+                    axk = T.kw(c, 'axis')
+                    if axk == P_('axis'):
+                        ctx.violated('R1', fi, 'per-variable concatenate addressed by the raw axis', 'concatenate_ds hands its `axis` argument to the concatenate() of every variable: an integer '
+                                     '(the default 0 included) is a position among the Dataset\'s dimensions, but each variable reads it against its own dims - variables whose '
+                                     'dimension order differs are joined along another dimension or fail; the dimension name must be passed', node=e.node)
+                        continue
+                    if not (axk is not None and _is_dim_name(axk) and T.contains(axk, P_('axis'))):
+                        ctx.undecide('R1', 'concatenate_ds: axis argument %s of the per-variable call is not recognisably the name of the requested dimension' % (T.show(axk)[:60] if axk else None))
+                        continue
+                    has = [pol for a, pol in e.guards if a[0] == 'cmp' and a[1] == 'in' and a[2] == axk and 'dims' in T.show(a[3])]
+                    if has != [True] and True not in has:
+                        ctx.violated('R2', fi, 'variables lacking the dimension', 'every variable is handed to concatenate() along the requested dimension, also those that do not have it '
+                                     '(ValueError): variables without the affected dimension must be left unchanged', node=e.node)
                         continue
                 good = True
         if good:
